@@ -23,7 +23,9 @@ Definition modelled_skeleton (h : handler) : list sk :=
        SkIf C_hello_psk [SkIf (C_other 3) [SkRaise 47] []; SkAssign 1 (1)] [];
        SkAssign 5 (-1);
        SkAssign 6 (-1);
-       SkAssert;
+       SkIf (C_other 4) [SkRaise 47] [];
+       SkIf (C_other 5) [SkRaise 47] [];
+       SkIf (C_other 6) [SkRaise 47] [];
        SkKey DIR_DECRYPT EP_HANDSHAKE;
        SkSet CLIENT_EXPECT_ENCRYPTED_EXTENSIONS]
   | H_client_handle_encrypted_extensions =>
@@ -37,7 +39,9 @@ Definition modelled_skeleton (h : handler) : list sk :=
        SkSet CLIENT_EXPECT_CERTIFICATE]
   | H_client_handle_certificate =>
       [SkPull 3;
+       SkIf (C_other 1) [SkRaise 50] [];
        SkAssign 3 (2);
+       SkIf (C_other 2) [SkRaise 42] [];
        SkSet CLIENT_EXPECT_CERTIFICATE_VERIFY]
   | H_client_handle_certificate_verify =>
       [SkPull 4;
@@ -61,7 +65,8 @@ Definition modelled_skeleton (h : handler) : list sk :=
        SkNegotiate 70;
        SkIf (C_other 1) [SkNegotiate 40] [];
        SkIf (C_other 4) [SkIf (C_other 3) [SkIf (C_other 2) [SkRaise 40] []; SkAssign 1 (1); SkIf C_hello_early [SkAssign 4 (1); SkKey DIR_DECRYPT EP_ZERO_RTT] []] []] [];
-       SkAssert;
+       SkIf (C_other 5) [SkRaise 47] [];
+       SkIf (C_other 6) [SkRaise 40] [];
        SkKey DIR_ENCRYPT EP_HANDSHAKE;
        SkKey DIR_DECRYPT EP_HANDSHAKE;
        SkAssert;
@@ -69,7 +74,7 @@ Definition modelled_skeleton (h : handler) : list sk :=
        SkIf C_request_client_cert [SkSet SERVER_EXPECT_CERTIFICATE] [SkSet SERVER_EXPECT_FINISHED]]
   | H_server_handle_certificate =>
       [SkPull 3;
-       SkIf C_certs_nonempty [SkAssign 3 (2); SkSet SERVER_EXPECT_CERTIFICATE_VERIFY] [SkSet SERVER_EXPECT_FINISHED]]
+       SkIf C_certs_nonempty [SkIf (C_other 1) [SkRaise 50] []; SkAssign 3 (2); SkIf (C_other 2) [SkRaise 42] []; SkSet SERVER_EXPECT_CERTIFICATE_VERIFY] [SkSet SERVER_EXPECT_FINISHED]]
   | H_server_handle_certificate_verify =>
       [SkPull 4;
        SkCheckSig;
@@ -130,7 +135,7 @@ Proof.
     unfold client_handle_hello, client_handle_encrypted_extensions, client_handle_certificate_request,
       client_handle_certificate, client_handle_certificate_verify, client_handle_finished,
       client_handle_new_session_ticket, server_handle_hello, server_handle_certificate,
-      server_handle_certificate_verify, server_handle_finished, client_send_hello, parsed, set_state;
+      server_handle_certificate_verify, server_handle_finished, client_send_hello, check_cv, parsed, set_state;
     cbn [s_state s_resumed s_kpsk s_kproxy s_creq];
     repeat match goal with
     | |- context [if ?b then _ else _] => destruct b
